@@ -570,6 +570,20 @@ def _generate(ctx):
             yield ("corr", "verify", list(tup))
             yield ("corr", "ecdsa_ok", list(tup))
             yield ("prop", "verify_ref", list(tup))
+    # valid tuples with a CONSTRUCTED small s (z solved from the signing equation), and their non-canonical twins
+    # s + n, which fit below p (and below 2^256) only when s < p - n ~ 2^128.3: no real signature gets there
+    for s0 in [1, 2, 0xDEADBEEF, 2 ** 128 + 99, P - N - 1, P - N, P - N + 1, TWO256 - N - 1, TWO256 - N][: ctx.n(9, 9)] + \
+            [r.randrange(1, P - N) for _ in range(ctx.n(2, 40))]:
+        d, k = rscalar(r), rscalar(r)
+        rr = ecref.mul(k, ecref.G)[0] % N
+        z = (s0 * k - rr * d) % N
+        q = list(ecref.mul(d, ecref.G))
+        for name, tup in (("small-s/valid", (q, z, rr, s0)), ("small-s/s+n", (q, z, rr, s0 + N)),
+                          ("small-s/s+2n", (q, z, rr, s0 + 2 * N)), ("small-s/r+n", (q, z, rr + N, s0))):
+            ctx.label("verify/" + name)
+            yield ("corr", "verify", list(tup))
+            yield ("corr", "ecdsa_ok", list(tup))
+            yield ("prop", "verify_ref", list(tup))
     # keys that are not curve points (constructor raises)
     for pv in ([1, 1], [0, 0], [P, 5], [ecref.GX, ecref.GY + 1], [-1, 2]):
         yield ("corr", "verify", [pv, 1, 1, 1])
